@@ -28,9 +28,8 @@ def bools : List (Option Verdict) → Option (List Bool)
 def countV (x : V) (xs : List V) : Nat := (xs.filter (veq x)).length
 
 /- leaves: the documented predicate is the Python operation itself; a value on which it raises is outside
-the domain.  (`MatchesPredicate`: a matchee on which building the mismatch `message % matchee` raises —
-a tuple — is treated as outside the C06 domain here; that defect is the C07 finding
-`predicateTupleMatchee`.) -/
+the domain.  (`MatchesPredicate` with a message that does not have exactly one conversion raises while
+building its mismatch: such a matcher is built outside its documented domain.) -/
 def leafSpec : Leaf → V → Option Verdict
   | .sameMembers e, v => match pyIter v with
       | some xs => some (.ofBool ((e ++ xs).all fun x => countV x e == countV x xs))
